@@ -3,6 +3,7 @@
 package verifharness
 
 import (
+	"os"
 	"errors"
 	"context"
 	"fmt"
@@ -206,7 +207,10 @@ func buildPolicies(st []PolD, li *liveInst) []failsafe.Policy[int] {
 				OnRetriesExceeded(func(e failsafe.ExecutionEvent[int]) { log().attempt("RetriesExceeded", pos, e.ExecutionAttempt, 0) }).
 				OnAbort(func(e failsafe.ExecutionEvent[int]) { log().attempt("Abort", pos, e.ExecutionAttempt, 0) }).
 				OnSuccess(func(e failsafe.ExecutionEvent[int]) { log().attempt("PolSuccess", pos, e.ExecutionAttempt, 0) }).
-				OnFailure(func(e failsafe.ExecutionEvent[int]) { log().attempt("PolFailure", pos, e.ExecutionAttempt, 0) })
+				OnFailure(func(e failsafe.ExecutionEvent[int]) {
+					log().attempt("PolFailure", pos, e.ExecutionAttempt, 0)
+					time.Sleep(time.Duration(p.LsnDur))
+				})
 			ps = append(ps, b.Build())
 			// a built policy is a snapshot: what is done to its builder afterwards must not reach it
 			b.WithMaxRetries(int(p.MaxRetries)+5).OnRetry(func(e failsafe.ExecutionEvent[int]) { log().attempt("Retry", pos+1000, e.ExecutionAttempt, 0) })
@@ -244,11 +248,13 @@ func buildPolicies(st []PolD, li *liveInst) []failsafe.Policy[int] {
 			case "Echo":
 				b = fallback.BuilderWithFunc[int](func(e failsafe.Execution[int]) (int, error) {
 					fbGuard(e)
+					time.Sleep(time.Duration(p.FBDur))
 					return e.LastResult() + int(p.FBR), nil
 				})
 			default:
 				b = fallback.BuilderWithFunc[int](func(e failsafe.Execution[int]) (int, error) {
 					fbGuard(e)
+					time.Sleep(time.Duration(p.FBDur))
 					if le := e.LastError(); le != nil {
 						d, _ := Describe(le)
 						return e.LastResult(), wrap(d).Build()
@@ -259,7 +265,10 @@ func buildPolicies(st []PolD, li *liveInst) []failsafe.Policy[int] {
 			b = applyHandle(b, p.Handle)
 			b = b.OnFallbackExecuted(func(e failsafe.ExecutionDoneEvent[int]) { log().done("FallbackExecuted", pos, e) }).
 				OnSuccess(func(e failsafe.ExecutionEvent[int]) { log().attempt("PolSuccess", pos, e.ExecutionAttempt, 0) }).
-				OnFailure(func(e failsafe.ExecutionEvent[int]) { log().attempt("PolFailure", pos, e.ExecutionAttempt, 0) })
+				OnFailure(func(e failsafe.ExecutionEvent[int]) {
+					log().attempt("PolFailure", pos, e.ExecutionAttempt, 0)
+					time.Sleep(time.Duration(p.FBLsnDur))
+				})
 			ps = append(ps, b.Build())
 			b.OnFallbackExecuted(func(e failsafe.ExecutionDoneEvent[int]) { log().done("FallbackExecuted", pos+1000, e) })
 		default:
@@ -325,6 +334,22 @@ func instState(li *liveInst) string {
 
 // runHistory runs the requests one after the other on fresh instances inside one bubble.
 func runHistory(t *testing.T, inst InstD, reqs []ReqD) (obs []ExecObs, start int64) {
+	// real-time watchdog (outside the bubble): a goroutine stuck on a mutex is not "durably blocked", so the bubble neither
+	// advances its clock nor reports a deadlock -- the history just never ends
+	finished := make(chan struct{})
+	defer close(finished)
+	go func() {
+		select {
+		case <-finished:
+		case <-time.After(40 * time.Second):
+			rs := make([]string, len(reqs))
+			for i, r := range reqs {
+				rs[i] = r.Gallina()
+			}
+			fmt.Fprintf(os.Stderr, "watchdog: a history of %d execution(s) did not finish within 40s of real time (an execution hangs):\n%s\n", len(reqs), strings.Join(rs, "\n"))
+			os.Exit(3)
+		}
+	}()
 	synctest.Test(t, func(t *testing.T) {
 		t0 := time.Now()
 		start = t0.UnixNano()
@@ -454,6 +479,16 @@ func runHistory(t *testing.T, inst InstD, reqs []ReqD) (obs []ExecObs, start int
 			if !(rq.SameExec && rq.ExtT == 0 && rq.ExtKind == "" && rq.CtxKey == -1) {
 				ex = base.WithContext(ctx)
 			}
+			var visitor *time.Timer
+			if rq.VisT > 0 {
+				visitor = time.AfterFunc(time.Duration(rq.VisT), func() {
+					// (the visited execution is blocked in a delay and the visitor takes no virtual time: the log is swapped for its duration)
+					saved := li.log
+					li.log = &execLog{t0: t0, base: start, counts: map[string]int{}}
+					base.Get(func() (int, error) { return rq.VisOut.Go() })
+					li.log = saved
+				})
+			}
 			var res int
 			var err error
 			switch rq.Entry {
@@ -492,6 +527,9 @@ func runHistory(t *testing.T, inst InstD, reqs []ReqD) (obs []ExecObs, start int
 			fnWG.Wait()
 			if timer != nil {
 				timer.Stop()
+			}
+			if visitor != nil {
+				visitor.Stop()
 			}
 			cancel()
 			synctest.Wait()
